@@ -62,7 +62,7 @@ FLOORS = {
 VERS = X.VERSIONS
 CTX_KINDS = ('root', 'doc', 'child', 'attr', 'text', 'atomic-int', 'atomic-str', 'none', 'lxml', 'comment')
 APIS = ('evaluate', 'select', 'results', 'api-select', 'api-iter', 'selector')
-CODE_RE = re.compile(r'^[A-Za-z_][\w.\-]*:[A-Z]{4}[0-9]{4}$')
+CODE_RE = re.compile(r'^(?:[A-Za-z_][\w.\-]*:)?[A-Z]{4}[0-9]{4}$')   # the prefix is empty when the default namespace is the err namespace
 MAX_LEN = 160
 
 # --------------------------------------------------------------------------
@@ -82,12 +82,32 @@ NS = {'p': 'urn:p', 'q': 'urn:q'}
 
 
 XSD_NS = 'http://www.w3.org/2001/XMLSchema'
-PARSER_CONFIGS = ('default', 'xsd-default-ns', 'xsd-empty-prefix', 'fn-ns', 'compat', 'nonstrict-1.1', 'vartypes', 'elem-ns')
+PARSER_CONFIGS = ('default', 'xsd-default-ns', 'xsd-empty-prefix', 'fn-ns', 'compat', 'nonstrict-1.1', 'vartypes', 'elem-ns',
+                  'ns-err-rebound', 'ns-err-rebound-aliased', 'ns-fn-rebound', 'ns-xs-rebound', 'ns-math-map-array-rebound',
+                  'ns-aliases', 'ns-default-fn', 'ns-default-err', 'ns-xsi-swapped')
+XQT_ERRORS_NS = 'http://www.w3.org/2005/xqt-errors'
+FN_NS = 'http://www.w3.org/2005/xpath-functions'
+# namespaces= arguments that rebind the well-known prefixes to other URIs, or bind other prefixes to the well-known URIs
+NS_CONFIGS = {
+    'ns-err-rebound': {'err': 'http://example.com/app-errors'},
+    'ns-err-rebound-aliased': {'err': 'http://example.com/app-errors', 'myerr': XQT_ERRORS_NS, 'e2': XQT_ERRORS_NS},
+    'ns-fn-rebound': {'fn': 'urn:other-functions', 'f': FN_NS},
+    'ns-xs-rebound': {'xs': 'urn:other-types', 'xsd': XSD_NS},
+    'ns-math-map-array-rebound': {'math': 'urn:m', 'map': 'urn:mp', 'array': 'http://www.w3.org/2005/xpath-functions/map',
+                                  'mm': 'http://www.w3.org/2005/xpath-functions/math'},
+    'ns-aliases': {'e': XQT_ERRORS_NS, 'f': FN_NS, 'x': XSD_NS, 'a': 'http://www.w3.org/2005/xpath-functions/array'},
+    'ns-default-fn': {'': FN_NS},
+    'ns-default-err': {'': XQT_ERRORS_NS, 'err': 'urn:not-err'},
+    'ns-xsi-swapped': {'xsi': XSD_NS, 'xs': 'http://www.w3.org/2001/XMLSchema-instance'},
+}
 
 
 def parser_kwargs(ver, cfg):
     """constructor options of a parser configuration (every configuration must still raise coded errors only)"""
     ns = dict(NS)
+    if cfg in NS_CONFIGS:
+        ns.update(NS_CONFIGS[cfg])
+        return {'namespaces': ns}
     if ver == '1.0':
         if cfg == 'xsd-empty-prefix':
             ns[''] = XSD_NS
@@ -1046,7 +1066,21 @@ CFG_SEQTYPES = ['integer', 'integer*', 'xs:integer+', 'item()', 'node()*', 'elem
                 'text()', 'anyAtomicType+']
 
 
+CFG_BASICS = ["b", "1 +", "b/foo(", "b[2] + 1", "1 div 0", "$undefined", "a/", "nope()", "p:a", "zz:a", "count()", "1 = 'x'", "@", "(", "'a",
+              "err:a", "fn:a", "xs:a", "math:a", "fn:count(a)", "fn:nope()", "xs:integer('x')", "string(1 div 0)", "a[", "//", "1 1",
+              "number('x') + 1", "sum(a)", "-'x'", "a | 1", "boolean((1, 2))", "id()", "$v/b", "lang()", "substring('a')"]
+
+
 def cfg_grid(ver):
+    yield from CFG_BASICS
+    if ver != '1.0':
+        for s_ in ["error()", "error(xs:QName('err:FOER0000'))", "error(QName('http://www.w3.org/2005/xqt-errors', 'err:X'), 'm')",
+                   "err:nope()", "1 idiv 0", "xs:date('x')", "(1, 2) eq 1", "1 treat as xs:string", "exactly-one(())", "zero-or-one((1, 2))",
+                   "xs:QName('zz:a')", "resolve-QName('zz:a', .)", "QName('u', 'p:a:b')", "math:pi()", "mm:pi()", "f:count(a)", "x:integer('1')"]:
+            yield s_
+    if ver >= '3.1':
+        for s_ in ["map:size(map{})", "array:size([])", "a:size([])", "map{1: 2}?3", "[1](2)", "array:get([1], 5)", "map:merge((map{1:2}, map{1:3}), map{'duplicates': 'reject'})"]:
+            yield s_
     if ver == '1.0':
         for a in ["1", "'x'", "a", "@a", ".", "$v", "p:a", "*", "integer", "a/b", "//a[b]", "count(a)", "string(integer)", "name(.)",
                   "a | b", "-a", "a = 'x'", "a[1]", "id('x')/a", "{urn:p}a", "{}a", "child::a", "namespace::*"]:
@@ -1359,7 +1393,7 @@ def _judge_for(chk):
 # module interface
 # --------------------------------------------------------------------------
 def selftest():
-    assert CODE_RE.match('err:XPST0003') and not CODE_RE.match('XPST0003') and not CODE_RE.match('err:xpst0003')
+    assert CODE_RE.match('err:XPST0003') and CODE_RE.match('XPST0003') and not CODE_RE.match('err:xpst0003') and not CODE_RE.match('')
     assert X.nesting_depth('((1))') == 2 and X.nesting_depth('--1') == 2 and X.nesting_depth('(' * 31) == 31
     assert X.join(['1', 'to', '2']) == '1 to 2'
     st_, v = guarded(lambda: 5)
